@@ -986,6 +986,19 @@ fn rtu_response_library() -> Vec<(&'static str, Req, Vec<u8>)> {
     let r = Req::ReadRegs { fc: 3, start: 0, count: 1 };
     v.push(("resp-exception", r.clone(), rtu_frame(1, &[0x83, 0x02])));
     v.push(("resp-exception-unknown", Req::WriteSingleCoil { addr: 1, value: false }, rtu_frame(1, &[0x85, 0x7F])));
+    // the exception form of every function (its length is derived from the function byte)
+    for (name, req) in [
+        ("resp-exception-fc1", Req::ReadBits { fc: 1, start: 0, count: 3 }),
+        ("resp-exception-fc2", Req::ReadBits { fc: 2, start: 0, count: 3 }),
+        ("resp-exception-fc4", Req::ReadRegs { fc: 4, start: 0, count: 2 }),
+        ("resp-exception-fc6", Req::WriteSingleReg { addr: 1, value: 3 }),
+        ("resp-exception-fc15", Req::WriteMultiCoils { start: 1, values: vec![true, false] }),
+        ("resp-exception-fc16", Req::WriteMultiRegs { start: 1, values: vec![10, 258] }),
+    ] {
+        let code = 1 + (req.fc() % 4);
+        let f = rtu_frame(1, &[req.fc() | 0x80, code]);
+        v.push((name, req, f));
+    }
     v
 }
 
